@@ -57,7 +57,15 @@ def g_reads():
                         if isinstance(t, ast.Attribute) and isinstance(t.value, ast.Name) and t.value.id == 'self':
                             bad.append('assigns self.%s outside __init__' % t.attr)
                 if isinstance(node, ast.FunctionDef) and node is not fn:
-                    bad.append('nested function / closure %s' % node.name)
+                    # a closure over locals is not state; a decorated (memoised / wrapped) nested function is
+                    nd = [ast.unparse(d) for d in node.decorator_list]
+                    if nd:
+                        bad.append('nested function %s decorated with %s' % (node.name, nd))
+                if isinstance(node, (ast.FunctionDef, ast.Lambda)):
+                    for dv in list(node.args.defaults) + [d for d in node.args.kw_defaults if d is not None]:
+                        if isinstance(dv, (ast.Dict, ast.List, ast.Set, ast.ListComp, ast.DictComp)) or \
+                                (isinstance(dv, ast.Call) and ast.unparse(dv.func) in ('dict', 'list', 'set', 'defaultdict', 'collections.defaultdict')):
+                            bad.append('mutable default argument (state shared between calls)')
             obs.append(Ob('READS[%s:%s]' % (key, qual), 'READS', 'refuted' if bad else 'proved', 'ast-scan', 0,
                           {'what': bad[:4], 'model': {}} if bad else {}))
             if qual in ALLOW_REQUIRES_GRAD:
